@@ -14,7 +14,7 @@ Section Full.
 End Full.
 
 (* (1) the attribute pass marks the directive comment and the next sibling that is not a comment,
-   Space or Hash, as a whole, and does not descend into it *)
+   Space, Parbreak or Hash, as a whole, and does not descend into it *)
 Theorem C07_directive_marks_next_sibling :
   forall rec pre dn cm d mid tgt post,
     is_directive d = true -> forallb passed_over mid = true ->
